@@ -114,6 +114,8 @@ func ifaceEqual(x any, v *jr.Value) bool {
 	return false
 }
 
+var boundaryLens = []int{255, 256, 257, 511, 512, 513, 1023, 1024, 1025, 1535, 1536, 1537, 2047, 2048, 2049, 3583, 3584, 3585, 4095, 4096, 4097, 7679, 7680, 7681, 8191, 8192, 8193, 15871, 15872, 15873, 65535, 65536, 65537}
+
 var classicIllFormed = []string{`{"a":1,}`, `[1,]`, `[,1]`, `{"a":1,,"b":2}`, `{,}`, `-01`, `01`, `00`, `-`, `+1`, `.5`, `1.`, `1e`, `1e+`, `0x10`, `1_000`, `NaN`, `Infinity`, `-Infinity`, `tru`, `True`, `nul`, `undefined`,
 	`'a'`, `{'a':1}`, `{a:1}`, `{"a" 1}`, `{"a":}`, `{"a"}`, `[1 2]`, `"\x41"`, `"\u12"`, `"\u12G4"`, `"\'"`, `"\a"`, "\"a\nb\"", "\"a\tb\"", "\"\x00\"", `"abc`, `abc"`, `/*c*/1`, `1//c`, `#c`, `[1]]`, `{}}`, `]`, `}`, `[`, `{`, `{"a":[}`, `[{"a":1]`,
 	"\xef\xbb\xbf1", "\v1", "1\f", "\u00a01", `1 2`, `{} {}`, `"a" "b"`, `[1,2,]`, `{"a":1 "b":2}`, `[[]`, `{"a":{"b":1}`, `-0x1`, `1.e5`, `1.5.5`, `--1`, `1-`, `""""`, `\`, `"\"`}
@@ -122,7 +124,13 @@ func judgeDecode(c *core.Ctx, text string, kind string) {
 	b := []byte(text)
 	var p jp.Patch
 	var err error
-	pn := mon.Try(func() { p, err = jp.DecodePatch(b) })
+	// the library gets a buffer of its own, which is overwritten as soon as DecodePatch has returned (a
+	// caller may reuse its read buffer): what the accessors return afterwards must still be the decoded members
+	lb := append([]byte(nil), b...)
+	pn := mon.Try(func() { p, err = jp.DecodePatch(lb) })
+	for i := range lb {
+		lb[i] = 'X'
+	}
 	c.Eval(1)
 	d := map[string]any{"input": clip(text, 2500), "error": errText(err), "kind": kind}
 	if pn != nil {
@@ -424,6 +432,29 @@ func init() {
 				}
 				c.Count("classic-ill-formed:planted")
 				judgeDecode(c, t, "classic-ill-formed")
+			}},
+			{Name: "trailing-data-at-buffer-boundaries", Exhaustive: true, Count: func(core.Tier) int { return len(boundaryLens) * 3 * 6 }, Run: func(c *core.Ctx, idx int) {
+				// a valid patch that ends exactly at (or one byte around) the sizes at which buffered readers refill,
+				// followed by data that makes the text ill-formed
+				L := boundaryLens[idx%len(boundaryLens)]
+				idx /= len(boundaryLens)
+				pad := idx % 3
+				idx /= 3
+				junk := []string{"x", "]", "{}", " 1", "}garbage", ",[]"}[idx%6]
+				base := `[{"op":"add","path":"/a","value":"`
+				tail := `"}]`
+				var t string
+				switch pad {
+				case 0: // a long string value
+					t = base + strings.Repeat("v", L-len(base)-len(tail)) + tail
+				case 1: // whitespace inside the array
+					t = `[{"op":"remove","path":"/a"}` + strings.Repeat(" ", L-len(`[{"op":"remove","path":"/a"}]`)) + `]`
+				default: // whitespace after the closing bracket, up to the boundary
+					t = `[{"op":"remove","path":"/a"}]` + strings.Repeat("\n", L-len(`[{"op":"remove","path":"/a"}]`))
+				}
+				judgeDecode(c, t, "boundary-control")
+				judgeDecode(c, t+junk, "boundary-trailing-data")
+				c.Count("boundary:cases")
 			}},
 			{Name: "generated-valid-patches", Count: n(30000, 1800000), Run: func(c *core.Ctx, idx int) {
 				cfg := &SeqCfg{Prof: seqProf, MinOps: 0, MaxOps: 8, MissRate: 30, RootOK: true, ContinueAfterFail: true}
